@@ -26,8 +26,8 @@ pub assume_specification [ContainedSpan::new] (a: TokenReference, b: TokenRefere
     ensures span_open(r) == a, span_close(r) == b;
 pub uninterp spec fn tabs_tt(n: usize) -> TokenType;     // TokenType::tabs(n) prints n tab characters (class A)
 pub uninterp spec fn spaces_tt(n: usize) -> TokenType;   // TokenType::spaces(n) prints n spaces (class A)
-pub assume_specification [TokenType::spaces] (n: usize) -> (r: TokenType) ensures r == spaces_tt(n);
-pub assume_specification [TokenType::tabs] (n: usize) -> (r: TokenType) ensures r == tabs_tt(n);
+pub assume_specification [TokenType::spaces] (n: usize) -> (r: TokenType) ensures r == spaces_tt(n), r is Whitespace;
+pub assume_specification [TokenType::tabs] (n: usize) -> (r: TokenType) ensures r == tabs_tt(n), r is Whitespace;
 // layout-only queries: no functional contract needed (results are unconstrained to the proofs)
 pub assume_specification [BinOp::precedence] (b: &BinOp) -> (r: u8);
 pub assume_specification [BinOp::is_right_associative] (b: &BinOp) -> (r: bool);
